@@ -984,12 +984,19 @@ type logicalQuery struct {
 	Left, Right query
 
 	Do func(iterator, interface{}, interface{}) interface{}
+
+	selected bool // Select already reported the context node
 }
 
 func (l *logicalQuery) Select(t iterator) NodeNavigator {
+	if l.selected {
+		// The context node is reported at most once, otherwise iteration never ends.
+		return nil
+	}
 	// When a XPath expr is logical expression.
 	node := t.Current().Copy()
 	val := l.Evaluate(t)
+	l.selected = true
 	switch val.(type) {
 	case bool:
 		if val.(bool) == true {
@@ -1000,6 +1007,7 @@ func (l *logicalQuery) Select(t iterator) NodeNavigator {
 }
 
 func (l *logicalQuery) Evaluate(t iterator) interface{} {
+	l.selected = false
 	m := l.Left.Evaluate(t)
 	n := l.Right.Evaluate(t)
 	return l.Do(t, m, n)
